@@ -60,7 +60,14 @@ def set_prov(prog, n):
 def classify_cond(node, val, sets):
     """-> canonical condition tuple"""
     n = strip(node)
+    while n[0] == "un" and n[1] == "Not" and val is not None:
+        n = strip(n[2])
+        val = not val
     if n[0] == "call":
+        from ..cfgq import inline_helper
+        inl = inline_helper(sets, n)
+        if inl is not None and strip(inl)[0] in ("call", "un", "bin"):
+            return classify_cond(inl, val, sets)       # a predicate method that only names the test (`ids.has_space(&id)`)
         sc = short_callee(n[1])
         if sc == "contains" and len(n[2]) == 2:
             setn = set_prov(sets, n[2][0])
@@ -115,6 +122,28 @@ def collect_sites(prog, check_fn):
     return out
 
 
+def expand_option_helpers(prog, conds):
+    """a condition `helper(..) is Some` where helper is a function of the workspace that returns Some at exactly one place: replaced by the
+    conditions under which the helper gets there (with its parameters bound to the call's arguments)"""
+    out = []
+    for (n, tk) in conds:
+        m = strip(n)
+        if m[0] == "discr" and tk in ("1", "else:0") and strip(m[1])[0] == "call":
+            call = strip(m[1])
+            ids = prog.callee_index().get(call[1], ())
+            if len(ids) == 1:
+                h = prog.fns[next(iter(ids))]
+                if h.kind in ("fn", "assocfn") and h.body.argc == len(call[2]) and "Option" in (h.raw.get("ret") or ""):
+                    hsc = Scope(prog, h, argmap={i + 1: a for i, a in enumerate(call[2])})
+                    somes = [(b, s) for b, i, s in h.body.statements() if s["s"] == "assign" and s["p"] == 0 and s["rv"]["r"] == "agg" and s["rv"].get("variant") == "Some"]
+                    if len(somes) == 1:
+                        for (s2, d, c, tk2) in hsc.conditions(somes[0][0]):
+                            out.append((c, tk2))
+                        continue
+        out.append((n, tk))
+    return out
+
+
 def analyse_checker(ctx, check_fn, links, rule="c15.link", bridge=True):
     prog = ctx.prog
     sets = prog
@@ -122,6 +151,7 @@ def analyse_checker(ctx, check_fn, links, rule="c15.link", bridge=True):
     for (sc, b, s, val, conds, dest) in collect_sites(prog, check_fn):
         loc = sc.fn.loc(s.get("ln"))
         canon = []
+        conds = expand_option_helpers(prog, conds)
         for (n, tk) in conds:
             bv = bool_taken(tk)
             c = classify_cond(n, bv, sets)
@@ -260,16 +290,19 @@ def run(ctx):
         ctx.violation("c15.types", "c15.types|check", "signature %s -> %s, Model freeze=%s, unsafe=%s" % (check.raw["inputs"], check.raw["output"], madt["freeze"], bool(unsafe_in)), check.loc())
     # D4
     comp = prog.method("energy::indicators::types::EnergyIndicators", None, "compute")
-    sc = Scope(prog, comp)
     okd4 = False
-    for b, i, s in comp.body.statements():
-        if s["s"] == "assign" and s["rv"]["r"] == "agg" and s["rv"].get("adt", "").endswith("EnergyIndicators"):
-            n = sc.rvalue(s["rv"])
-            w = strip(n[3][n[2].index("warnings")])
-            if w[0] == "call" and w[1] == "bemodel::checks::check" and strip(w[2][0]) == ("arg", 1, comp.body.names.get(1, "_1")):
-                okd4 = True
-            det = show(w)[:120]
-            loc = comp.loc(s.get("ln"))
+    loc = comp.loc()
+    det = "?"
+    # the literal may sit in compute itself or in a private helper it calls (instantiated with its arguments)
+    for sc in Scope(prog, comp).all_scopes():
+        for b, i, s in sc.body.statements():
+            if s["s"] == "assign" and s["rv"]["r"] == "agg" and s["rv"].get("adt", "").endswith("EnergyIndicators"):
+                n = sc.rvalue(s["rv"])
+                w = strip(n[3][n[2].index("warnings")])
+                if w[0] == "call" and w[1] == "bemodel::checks::check" and strip(w[2][0]) == ("arg", 1, comp.body.names.get(1, "_1")):
+                    okd4 = True
+                det = show(w)[:120]
+                loc = sc.fn.loc(s.get("ln"))
     if okd4:
         ctx.ok("c15.indicators", "c15.indicators|warnings", "EnergyIndicators.warnings = check(model) with compute's own argument", loc)
     else:
